@@ -10,6 +10,9 @@ from harness.common import engine_run, coq_crosscheck, unfval, fval
 
 TARGETS = ["theories/Props/C13.vo", "theories/Proofs/GenEq_EdgeCase.vo", "theories/Proofs/GenEq_ResultCalc.vo"]
 GENEQ = {"theories/Proofs/GenEq_EdgeCase.vo": "EdgeCase", "theories/Proofs/GenEq_ResultCalc.vo": "ResultCalc"}
+# units added to the cone after round 2 of the seeded changes (a refused / changed unit must be noticed by this check too)
+TARGETS = TARGETS + ["theories/Proofs/GenEq_MetricFormulas.vo"]
+GENEQ = dict(GENEQ, **{"theories/Proofs/GenEq_MetricFormulas.vo": "MetricFormulas"})
 ALLOWED_AXIOMS = []
 RULE = ("case = (input type, array pair incl. empty sides, subset of global metrics, injective handler table); oracle: empty side -> the "
         "handler's EMPTY_PRED/EMPTY_REF/NO_INSTANCES entry, otherwise global_bin_m == Metric.m applied to the binarised INPUT arrays; "
